@@ -48,6 +48,11 @@ func (a *MajorityStrategy) Compute(snapshots <-chan *asset.Snapshot) <-chan Acti
 		for {
 			buy, hold, sell, ok := CountActions(sources)
 			if !ok {
+				// Drain the remaining sources so that they can finish.
+				for _, source := range sources {
+					go helper.Drain(source)
+				}
+
 				break
 			}
 
